@@ -130,8 +130,19 @@ package pruner
 //@   ensures result != nil
 //@ func fillRunningEventFilter
 //@   trusted
+// The rebuild anchors only on a persisted window that ends at or below the head (defect F19, see
+// core's contract file): the rebuilt filter never starts beyond the block after the head.
+//@ extern func github.com/NethermindEth/juno/core.GetAggregatedBloomFilter
 //@ func rebuildRunningEventFilter
-//@   trusted
+//@   props C09 C05 C16
+//@   arith int
+//@   nosafe
+//@   requires latest < 1<<62 && floor <= latest + 1
+//@   modifies *
+//@   loop 1: invariant window: rangeStartAligned % 8192 == 0 && lastStoredFilterRangeEnd == rangeStartAligned + 8191 && rangeStartAligned <= latest
+//@   callsite NewRunningEventFilterHot@*: resumes_no_later_than_the_block_after_the_head: nextBlock <= latest + 1
+//@   callsite NewAggregatedFilter@*: window_of_the_next_block: fromBlock <= latest + 1
+//@   callsite fillRunningEventFilter@*: fills_up_to_the_head: $2 <= latest + 1 && $3 == latest
 //@ func InitializeRunningEventFilter
 //@   props C16, C09
 //@   arith int
